@@ -55,6 +55,12 @@ def state_for(context, v):
             chart.insert(0, ("STEPSTYPE", "dance-single")) if not any(k == "STEPSTYPE" for k, _ in chart) else None
     elif context == "version":
         items = [("VERSION", v), ("TITLE", "t")]
+    elif context == "sim_key":
+        # a simfile-level key (NOTES / NOTES2 are ordinary keys there), followed by another property
+        k = v.upper()
+        if k != v or k in ("NOTEDATA", "VERSION", "TITLE") or not k:
+            return None
+        items = [("VERSION", "0.83"), (k, ""), ("TITLE", "t"), ("A", "")]
     elif context == "version_desc":
         # the version together with a chart that has a DESCRIPTION and no CHARTNAME
         items = [("VERSION", v), ("TITLE", "t")]
@@ -273,8 +279,8 @@ def explore_shard(acc, shard):
             acc.sample(layer, case)
     elif kind == "V":
         layer = "V vocabulary (values that mean something elsewhere) in every context"
-        for ctx in CONTEXTS + ["version_desc"]:
-            for tok in (X.KEY_VOCABULARY + X.VOCABULARY if ctx == "chart_key" else X.VOCABULARY):
+        for ctx in CONTEXTS + ["version_desc", "sim_key"]:
+            for tok in (X.KEY_VOCABULARY + X.VOCABULARY + ["NOTES", "NOTES2"] if ctx in ("chart_key", "sim_key") else X.VOCABULARY + [""]):
                 case = {"kind": "value", "context": ctx, "value": tok}
                 core.guard_cheap(acc, case)
                 m = state_for(ctx, tok)
